@@ -8,12 +8,12 @@ ROOT = "/verif"
 CHECKS = {
     "C13": ("loopmc", "model_checking",
             "typed Vec/tuple lists of distinguishable probe commands executed through the real Client::command_list under the controlled scheduler (all schedules within a deviation bound), framing and positional pairing checked against the simulated server's transcript; raw list rendering enumerated over every build recipe",
-            "Typed Vec lists of length 0..5 and tuples of every arity 1..8 of commands whose reply identifies their position are run through the real client (second caller, and for three shapes a notification and a split, all schedules within the bound; short transport writes; a cancelled list followed by a tuple list; a tuple mixing probes with commands whose replies carry binary parts; empty lists around a connection end; hostile-looking command names): N>=2 written as one command_list_ok_begin..command_list_end block with the N lines in order, N=1 as the bare line, N=0 nothing written and an empty result, i-th typed result decoded from the i-th frame, Vec results of exactly N elements; raw lists of 1..6 commands built by every mix of new/command/add/extend render to exactly N+2 (or 1) lines.",
+            "Typed Vec lists of length 0..5 and tuples of every arity 1..8 of commands whose reply identifies their position are run through the real client (second caller, and for three shapes a notification and a split, all schedules within the bound; short transport writes; a cancelled list followed by a tuple list; a tuple mixing probes with commands whose replies carry binary parts; empty lists around a connection end; lists after a partial failure, a list of 600 commands, a list sent in the reply window over a stalling transport; hostile-looking command names): N>=2 written as one command_list_ok_begin..command_list_end block with the N lines in order, N=1 as the bare line, N=0 nothing written and an empty result, i-th typed result decoded from the i-th frame, Vec results of exactly N elements; raw lists of 1..6 commands built by every mix of new/command/add/extend render to exactly N+2 (or 1) lines.",
             "Trusted: mpdref::server's list handling (list_OK per command).",
             "DESIGN.md section 4 C13"),
     "C17": ("loopmc", "model_checking",
             "exhaustive parameter grid (size x chunk limit x source x MIME x every ACK code) executed through the real Client::album_art against a simulated server holding the picture, plus schedule exploration with a second caller and notifications between chunk requests",
-            "Every grid point is run on the real client: returned bytes and MIME equal the stored picture, request lines are readpicture|albumart <uri> <offset> with offsets = bytes returned so far and exactly ceil(size/limit) (min 1) requests, fallback to albumart exactly on an empty reply or ACK 5, None when neither has data, any other ACK returned with its code; two grid points under all schedules within the deviation bound with interleaved caller and notification; chunk sizes that vary between replies and short final pieces, a caller changing binarylimit between chunks, two concurrent loads of different URIs (offsets follow the bytes actually returned, per URI), a server that fails after k chunks, and a MIME type given with the first chunk only.",
+            "Every grid point is run on the real client: returned bytes and MIME equal the stored picture, request lines are readpicture|albumart <uri> <offset> with offsets = bytes returned so far and exactly ceil(size/limit) (min 1) requests, fallback to albumart exactly on an empty reply or ACK 5, None when neither has data, any other ACK returned with its code; two grid points under all schedules within the deviation bound with interleaved caller and notification; chunk sizes that vary between replies and short final pieces, a caller changing binarylimit between chunks, two concurrent loads of different URIs (offsets follow the bytes actually returned, per URI), two callers loading at once, a server that fails after k chunks, a MIME type given with the first chunk only, and other wordings of the ACK 5 that means `unknown command`.",
             "Trusted: mpdref::server's readpicture/albumart model.",
             "DESIGN.md section 4 C17"),
     "C18": ("loopmc+segmc", "model_checking",
@@ -33,7 +33,7 @@ CHECKS = {
             "DESIGN.md section 4 C15"),
     "C16": ("enum", "model_checking",
             "bounded-exhaustive enumeration of abstract replies per kind (status: all 2048 optional-field subsets, orders, boundary and enum values, out-of-domain spellings; stats, count, grouped count, list, grouped list, listplaylists, stickers, channels, messages, tagtypes, update, replay gain) decoded by the real commands and compared field by field",
-            "Every abstract reply is written with the protocol's field names (updating_db, legacy time: elapsed:total), parsed by the real parser and decoded; each decoded field must equal the value sent (durations to f64 representation error over a millisecond sweep), Option fields must be Some iff sent, out-of-domain values (incl. values that wrap to a plausible number in a narrower type, and malformed legacy time values) must give Err, never another value; grouped counts and lists with empty and edge-blank keys/values.",
+            "Every abstract reply is written with the protocol's field names (updating_db, legacy time: elapsed:total), parsed by the real parser and decoded; each decoded field must equal the value sent (durations to f64 representation error over a millisecond sweep), Option fields must be Some iff sent, out-of-domain values (incl. values that wrap to a plausible number in a narrower type, a neighbouring field's spelling, and malformed legacy time values) must give Err, never another value; grouped counts and lists with empty and edge-blank keys/values and with tags the library has no variant for; elapsed beyond the total.",
             "Trusted: the abstract reply models written from MPD's handle_status / protocol reference; non-Option struct fields default when omitted.",
             "DESIGN.md section 4 C16"),
     "C12": ("enum", "model_checking",
@@ -43,38 +43,38 @@ CHECKS = {
             "DESIGN.md section 4 C12"),
     "C19": ("enum", "model_checking",
             "explicit exploration of every operation sequence (get/take_binary) up to depth 5/6 on every frame of a bounded family built by the real parser, all observers, all next/next_back iteration patterns and the positional/consuming iterator adaptors compared with a Vec-based model after every step (no state merging)",
-            "363 frames (all key sequences of length 0..4 over {a, A, b}; no, ordinary and zero-length binary part) x every sequence of <=5/6 operations from {get(a), get(A), get(b), get(missing), take_binary}; after every step find/fields_len/is_empty/has_binary/binary/clone and fields(), &frame, into_iter() under every front/back pattern incl. IntoIter::take_binary, and nth/nth_back/last/count/size_hint/skip/step_by/rev called on the iterator types themselves; responses with 0..3 frames +- error (incl. partial output before the error) under every front/back pattern with exact size hints, successful_frames, is_error, into_single_frame.",
+            "723 frames (all key sequences of length 0..4 over {a, A, b}; no, ordinary and zero-length binary part; distinct, all-identical and blank-edged values) x every sequence of <=5/6 operations from {get(a), get(A), get(b), get(missing), take_binary}; after every step find/fields_len/is_empty/has_binary/binary/clone and fields(), &frame, into_iter() under every front/back pattern incl. IntoIter::take_binary, and nth/nth_back/last/count/size_hint/skip/step_by/rev as well as fold/rfold/try_fold/try_rfold/for_each (and rev of each) called on the iterator types themselves; responses with 0..3 frames +- error (incl. partial output before the error) under every front/back pattern with exact size hints, successful_frames, is_error, into_single_frame.",
             "Trusted: the Vec<Option<(key,value)>> + Option<binary> model.",
             "DESIGN.md sections 3.3, 4 C19"),
     "C20": ("enum", "model_checking",
             "complete enumeration of the finite domain: all ordered pairs of tag / subsystem values (named variants vs. catch-all in 4 letter cases), all candidate tag strings, all subsystem names sent through the real client",
-            "All ordered pairs over 157 tag values and 71 subsystem values: == iff names equal, cmp = string order of names, equal implies equal Hash under two hashers and interchangeability as HashMap/BTreeMap/HashSet key; Tag::try_from on every candidate string (incl. known names with one letter replaced by non-ASCII characters that Unicode case mapping folds onto ASCII) accepts exactly non-empty letters/_/-, maps known names case-insensitively and round-trips; every subsystem name (14 + unknown + wrong-case) delivered as an event carries that name.",
+            "All ordered pairs over 157 tag values and 71 subsystem values: == iff names equal, cmp = string order of names, equal implies equal Hash under two hashers and interchangeability as HashMap/BTreeMap/HashSet key; Tag::try_from on every candidate string (incl. known names with one letter replaced by non-ASCII characters that Unicode case mapping folds onto ASCII) accepts exactly non-empty letters/_/-, maps known names case-insensitively, round-trips and has no memory (every ordered pair of case-variants parsed back to back); every subsystem name (14 + unknown + wrong-case) delivered as an event carries that name.",
             "Trusted: the two name tables written from the MPD protocol reference.",
             "DESIGN.md section 4 C20"),
     "C07": ("enum", "model_checking",
             "bounded-exhaustive enumeration of command names, argument values of every Argument kind (incl. user-defined renderers) and all sequences of <=5/6 accepted/rejected add_argument calls; differential oracle (command == command built from the accepted calls alone)",
-            "All names of length <=3/4 over 22 symbols (ASCII classes plus one representative of every non-ASCII letter / numeric / space class) plus every string within edit distance 1 / prefix / extension of the three list keywords; every argument string of length <=4/5 over 12 classes with LF at every position through every string Argument impl, integer/bool/Duration values and user-defined renderers emitting every byte string of length <=4/6 over 6 bytes; every sequence of <=5/6 add_argument calls over a menu of 4 accepted and 4 rejected values: acceptance implies a legal name / no LF, rejection leaves the command == its clone, one LF per sent command, N+2 lines per list.",
+            "All names of length <=3/4 over 22 symbols (ASCII classes plus one representative of every non-ASCII letter / numeric / space class) plus every string within edit distance 1 / prefix / extension of the three list keywords; every argument string of length <=4/5 over 12 classes with LF at every position through every string Argument impl, hand-built mpd_client Tag::Other values, integer/bool/Duration values and user-defined renderers emitting every byte string of length <=4/6 over 6 bytes; every sequence of <=4/6 add_argument calls over a menu of 12 values (accepted, rejected, empty and blank-terminated renderings, a line feed as first byte, a hand-built tag): acceptance implies a legal name / no LF, rejection leaves the command == its clone, one LF per sent command, N+2 lines per list.",
             "Trusted: the statement's alphabet (letters, digits, underscore) and the three keyword spellings; renderers only append.",
             "DESIGN.md section 4 C07"),
     "C11": ("enum", "model_checking",
             "bounded-exhaustive enumeration of filter trees (<=3 leaves, nesting <=3) x leaf kinds x value strings over a class alphabet, decoded through ports of MPD's tokenizer and filter grammar and compared with a mirror tree",
-            "Every tree shape with <=3 leaves built through new/tag/tag_exists/tag_absent/negate/!/and, every assignment of the 8 leaf kinds, and at one leaf at a time every value of length <=4/5 over 11 symbols (quotes of both kinds, backslash, parentheses, !, =, blank, non-ASCII, AND), rendered through find, count, list and count-group; every Tag variant's name against MPD's table; render-then-negate / -and / clone-then-modify histories compared with a fresh build; the argument located by the tokenizer port and parsed by the filter-grammar port must equal the mirror tree up to AND associativity with byte-identical values.",
+            "Every tree shape with <=3 leaves built through new/tag/tag_exists/tag_absent/negate/!/and, every assignment of the 8 leaf kinds, and at one leaf at a time every value of length <=4/5 over 11 symbols (quotes of both kinds, backslash, parentheses, !, =, blank, non-ASCII, AND), rendered through find, count, list and count-group; every Tag variant's name against MPD's table; 48 control / combining / format / private-use characters at three positions of a value under every operator; render-then-negate / -and / clone-then-modify histories compared with a fresh build; the argument located by the tokenizer port and parsed by the filter-grammar port must equal the mirror tree up to AND associativity with byte-identical values.",
             "Trusted: mpdref::tokenizer and mpdref::filter as ports of MPD's two unescaping layers (self-tested on the documented examples); special filter types are outside the domain.",
             "DESIGN.md section 4 C11"),
     "C02": ("segmc", "model_checking",
             "exhaustive enumeration of read segmentations (all compositions for short streams, all <=2/3-cut segmentations, every single cut and boundary-neighbourhood pairs for streams around the 4 KiB buffer and its doublings) x Pending answers x cancellation of the receive future at every await (once, twice, and followed by a send) x {blocking, async}; differential oracle against the one-read baseline",
-            "For every byte stream of the pool (well-formed grammar streams, all truncations and single-byte corruptions of 8 two-response streams, long responses whose boundaries sit at 4096/8192/16384 +-1, binary payloads of 4000-8300 bytes) every segmentation of the stated sets is replayed on the real Connection and AsyncConnection by a scripted reader; the sequence of responses and the terminal outcome must equal the one-read baseline and agree between the flavours.",
+            "For every byte stream of the pool (well-formed grammar streams, all truncations and single-byte corruptions of 8 two-response streams, long responses whose boundaries sit at 4096/8192/16384 +-1 or whose length is exactly that, binary payloads of 4000-140000 bytes, one 1.2 MB text line) every segmentation of the stated sets is replayed on the real Connection and AsyncConnection by a scripted reader; the sequence of responses and the terminal outcome must equal the one-read baseline and agree between the flavours.",
             "Trusted: nothing but the scripted reader (differential oracle). The greeting is delivered in its own read (a conforming server speaks only when asked).",
             "DESIGN.md sections 3.2, 4 C02"),
     "C03": ("segmc", "model_checking",
             "bounded-exhaustive enumeration of abstract responses (small-scope grammar) encoded by an independent encoder, decoded by the real connections under exhaustive segmentation sets",
-            "Every abstract response of the bounded grammar (field-level exhaustive singles, list/error forms over representative frames, sequences of responses) is serialised by mpdref's encoder and must be decoded to exactly the abstract value, response by response, then a clean end; under all compositions (short) / <=2-3 cuts (medium) / single cuts + chunk sizes (long binary, components up to 140000 bytes with responses pipelined behind them), both flavours; for segmentations with 1-2 cuts also with the async receive abandoned at its second read, a command sent, and receive called again.",
+            "Every abstract response of the bounded grammar (field-level exhaustive singles, list/error forms over representative frames, sequences of responses) is serialised by mpdref's encoder and must be decoded to exactly the abstract value, response by response, then a clean end; under all compositions (short) / <=2-3 cuts (medium) / single cuts + chunk sizes (long binary, components up to 140000 bytes with responses pipelined behind them), connection histories of 200-520 distinct field names, both flavours; for segmentations with 1-2 cuts also with the async receive abandoned at its second read, a command sent, and receive called again.",
             "Trusted: mpdref::wire encoder (cross-checked against the independent line-based reference decoder on every stream).",
             "DESIGN.md sections 3.2, 4 C03"),
     "C09": ("segmc", "model_checking",
             "exhaustive enumeration of all byte strings over a 10-symbol protocol alphabet up to length 5/6, all single-byte corruptions of grammar streams and numeric edge cases (binary lengths and ACK numbers at 2^32, 2^63, 2^64-1, 2^64, 10^20, 10^40, signed / zero-padded / empty spellings; run in a child process so an allocation abort is a verdict), and large well-formed streams, against a line-based reference decoder; panics caught, reads counted",
             "Every enumerated stream is fed to connect and (after a valid greeting) to receive on both connection flavours under one-read, byte-at-a-time and single-cut segmentations inside catch_unwind with a read cap; delivered responses must equal the reference decoder's, a complete malformed line must give InvalidMessage, an early stop an error, and one more receive() after the terminal result must not panic.",
-            "Trusted: the reference decoder grammar (DESIGN.md 3.5); field names with printable ASCII characters outside the library's present alphabet are unspecified (rejecting the line and delivering it verbatim are both accepted).",
+            "Trusted: the reference decoder grammar (DESIGN.md 3.5); field names with printable, non-blank characters (valid UTF-8) outside the library's present alphabet are unspecified: rejecting such a line and delivering it verbatim are both accepted, line by line.",
             "DESIGN.md sections 3.2, 4 C09"),
     "C10": ("segmc", "fault_enumeration",
             "exhaustive enumeration of cut positions (crash points) of every grammar stream x segmentations of the surviving prefix x cancellation points of the async receive (also followed by a send) x {blocking, async}, incl. streams with several and with very large binary frames",
@@ -83,8 +83,8 @@ CHECKS = {
             "DESIGN.md sections 3.2, 4 C10"),
     "C01": ("loopmc", "model_checking",
             "stateless model checking of the real tokio client loop under a controlled scheduler: deviation-bounded DFS over event orders by re-execution, oracle = simulated MPD server transcript",
-            "All orders of Issue (both select! poll orders) / Deliver (whole, split at line boundaries, 1 byte, len-1) / Notify / Tick / HalfTick / LongTick / Cancel / StallWrites events, short transport writes, within the deviation bound (micro scenarios: all orders) are executed on the real Client with a paused clock and a scripted transport; every completed request is compared with the reply the simulated server wrote for exactly that request line, list errors with their successful frames (incl. a failing command that printed output before its ACK), per-caller order at the server, and cancellation leaving other callers' replies intact - also for the next request through the same handle (each caller keeps one Client clone for all its requests); directed histories of 90 and 400/1500 changes with the event receiver alive but never polled: every request still resolves.",
-            "Trusted: mpdref::server (MPD idle/noidle/command-list rules), the one-event-per-step reduction argued in DESIGN.md section 5 (select! with both branches ready = one of the two serialisations), tokio's channels being linearizable. Bounds: <=3 callers, <=3 requests each, deviation bound reported in the evidence.",
+            "All orders of Issue (both select! poll orders) / Deliver (whole, split at line boundaries, 1 byte, len-1) / Notify / Tick / HalfTick / LongTick / Cancel / StallWrites events, short transport writes, within the deviation bound (micro scenarios: all orders) are executed on the real Client with a paused clock and a scripted transport; every completed request is compared with the reply the simulated server wrote for exactly that request line, list errors with their successful frames (incl. a failing command that printed output before its ACK), per-caller order at the server, and cancellation leaving other callers' replies intact - also for the next request through the same handle (each caller keeps one Client clone for all its requests); directed histories of 90 and 400/1500 changes with the event receiver alive but never polled: every request still resolves; byte-identical requests from several handles each reach the server and get the reply to an execution of their own.",
+            "Trusted: mpdref::server (MPD idle/noidle/command-list rules; its `count` command numbers executions), the one-event-per-step reduction argued in DESIGN.md section 5 (select! with both branches ready = one of the two serialisations), tokio's channels being linearizable. Bounds: <=3 callers, <=3 requests each, deviation bound reported in the evidence.",
             "DESIGN.md sections 3.1, 4 C01"),
     "C04": ("loopmc", "model_checking",
             "stateless model checking of the real client loop (deviation-bounded DFS by re-execution); oracle = changed: lines written by the simulated server vs. events received",
@@ -93,12 +93,12 @@ CHECKS = {
             "DESIGN.md sections 3.1, 4 C04"),
     "C05": ("loopmc", "model_checking",
             "stateless model checking of the real client loop; legality of every client write judged by the simulated MPD server and a client-view session automaton",
-            "Every write of every explored schedule is judged at the moment it happens: nothing but noidle while the server waits in idle, a request only after everything the server has sent was read (at most one outstanding), exactly one reply consumed between idle and a request, first line idle, nothing illegal written when the last handle goes away at any point, idling kept up through 400/1500 changes that nobody collects, idle again within a bounded time after a reply (the delay itself is not prescribed), idling at drain; each scenario's eager-server exploration is cross-checked against a lazy server (server steps as separate events) on client-observable projections.",
+            "Every write of every explored schedule is judged at the moment it happens: nothing but noidle while the server waits in idle, a request only after everything the server has sent was read (at most one outstanding), exactly one reply consumed between idle and a request, first line idle, nothing illegal written when the last handle goes away at any point or when the server refuses idle, idling kept up through 400/1500 changes that nobody collects, idle again within a bounded time after a reply (the delay itself is not prescribed), idling at drain; each scenario's eager-server exploration is cross-checked against a lazy server (server steps as separate events) on client-observable projections.",
             "Trusted: mpdref::server; eager server reduction (DESIGN.md section 5, validated per run by the lazy cross-check); tokio's select! branch order is owned through a seeded runtime.",
             "DESIGN.md sections 3.1, 4 C05"),
     "C08": ("loopmc", "fault_enumeration",
             "exhaustive fault enumeration on the real client loop: one fault of each kind at every step of every schedule within the deviation bound, Close at every offset of the bytes in flight",
-            "For each schedule prefix within the bound one fault (peer close after p more bytes for every p, RST-style close, persistent read error, persistent write error, injected malformed line, malformed bytes without a line end followed by silence, all handles dropped) is injected at every step, followed by all continuations within the bound and a drain with a late request; checks: nothing hangs, later requests fail, Ok only for completely delivered matching replies, closed flag, <=1 closing event then end of stream, unclean ends surfaced - to the caller whose request was in flight where that is beyond doubt (request line reached the server unanswered, or noidle written on behalf of a taken request; no caller gave up) -, transport released.",
+            "For each schedule prefix within the bound one fault (peer close after p more bytes for every p, RST-style close, persistent read error, persistent write error, injected malformed line, malformed bytes without a line end followed by silence, all handles dropped) is injected - also around a caller that gives up, after 90 uncollected events, and in a session the server ends by refusing idle - at every step, followed by all continuations within the bound and a drain with a late request; checks: nothing hangs, later requests fail, Ok only for completely delivered matching replies, closed flag, <=1 closing event then end of stream, unclean ends surfaced - to the caller whose request was in flight where that is beyond doubt (request line reached the server unanswered, or noidle written on behalf of a taken request; no caller gave up) -, transport released.",
             "Trusted: the fault model (writes after a peer close are accepted silently; errors are persistent); mpdref::wire reference decoder decides whether a cut is on a response boundary.",
             "DESIGN.md sections 3.1, 4 C08"),
     "C06": ("enum", "model_checking",
